@@ -23,10 +23,10 @@ func init() {
 
 // astUniverse: AST struct kinds built by the parser, with their value-carrying child fields.
 type astUniverse struct {
-	kinds   map[string]*types.Named // built by the parser
-	fields  map[string][]string     // kind -> child field names (expression/statement/block children)
-	conduit map[string]bool         // struct kinds that are not themselves passed to walkers (CatchClause, DeclItem ...)
-	typeFields map[string][]string  // kind -> fields of TypeNode type
+	kinds      map[string]*types.Named // built by the parser
+	fields     map[string][]string     // kind -> child field names (expression/statement/block children)
+	conduit    map[string]bool         // struct kinds that are not themselves passed to walkers (CatchClause, DeclItem ...)
+	typeFields map[string][]string     // kind -> fields of TypeNode type
 }
 
 func buildASTUniverse(c *Ctx) *astUniverse {
